@@ -1072,6 +1072,90 @@ pub fn run(tier: &str) -> i32 {
     add(&c2);
   }
 
+  // ----- stage 6: the timer inside the machine -------------------------------------------
+  // DIV/TIMA/IF as the guest sees them through the bus while the other devices are busy: time
+  // delivered by MemoryAreas::run_clock_cycles (what the CPU's accounting calls), with an OAM
+  // DMA in flight and/or the display running.  What the timer shows may not depend on that.
+  {
+    const CTX_NAME: [&str; 4] = ["idle", "oam-dma-in-flight", "lcd-on", "dma+lcd"];
+    let schedules: Vec<(&str, Vec<u32>)> = vec![
+      ("1x2048", vec![2048]),
+      ("4x512", vec![512; 4]),
+      ("640+1408", vec![640, 1408]),
+      ("512x4", vec![4; 512]),
+      ("60,252,...", { let mut v = Vec::new(); let mut t = 0; while t + 312 <= 2048 { v.push(60); v.push(252); t += 312; } v.push(2048 - t); v }),
+      ("8+632+1408", vec![8, 632, 1408]),
+    ];
+    let ns = schedules.len() as u64;
+    let total_cases = 8 * 2 * 4 * ns;
+    let opts = PoolOpts { chunk: 4, bitmap_bits: 1 << 12, samples_per_child: 1, ..PoolOpts::default() };
+    let r = run_pool(
+      total_cases,
+      &opts,
+      |_| {
+        let mut rom = vec![0u8; 0x8000];
+        rom[0x100..0x150].copy_from_slice(&crate::world::header_bytes(0x00, 0x00, 0x00)[0x100..0x150]);
+        crate::world::flat_core(rom)
+      },
+      |core, case, ctx| {
+        let si = (case % ns) as usize;
+        let dctx = ((case / ns) % 4) as usize;
+        let tima0: u8 = if (case / ns / 4) % 2 == 0 { 0x00 } else { 0xF0 };
+        let tac = (case / ns / 8) as u8 & 7;
+        let tma = 0x7Fu8;
+        let (sname, sched) = &schedules[si];
+        core.memory.io = IO::new();
+        core.memory.oam_dma = None;
+        let m = &mut core.memory as *mut crate::mem::MemoryAreas;
+        let wr = |a: u16, v: u8| crate::mem::memory_write_byte(m, a, v);
+        let rd = |a: u16| crate::mem::memory_read_byte(m as *const crate::mem::MemoryAreas, a);
+        wr(0xFF04, 0);
+        wr(0xFF06, tma);
+        wr(0xFF05, tima0);
+        wr(0xFF07, tac);
+        if dctx & 2 != 0 {
+          wr(0xFF40, 0x91);
+        }
+        if dctx & 1 != 0 {
+          wr(0xFF46, 0xC1);
+        }
+        wr(0xFF0F, 0);
+        let mut r5 = R5::new(0, tac, tima0, tma);
+        ctx.sample(|| J::obj().set("stage", J::s("in-the-machine")).set("tac", J::u(tac as u64)).set("tima", J::u(tima0 as u64)).set("context", J::s(CTX_NAME[dctx])).set("schedule", J::s(*sname)));
+        let mut elapsed = 0u32;
+        for (bi, b) in sched.iter().enumerate() {
+          core.memory.run_clock_cycles(ClockCycles(*b as usize));
+          let irq = r5.elapse(*b);
+          elapsed += *b;
+          let got = (rd(0xFF04), rd(0xFF05), rd(0xFF0F) & 4 != 0);
+          wr(0xFF0F, 0);
+          let want = ((r5.div16 >> 8) as u8, r5.tima, irq);
+          ctx.count(C_TRANS, 1);
+          ctx.count(C_IMPL_CLOCKS, *b as u64);
+          ctx.count(C_REF_CLOCKS, *b as u64);
+          ctx.class(0x40000 | ((tac as u64) << 8) | ((dctx as u64) << 4) | ((irq as u64) << 3) | (bi.min(7) as u64));
+          if got != want {
+            let field = if got.0 != want.0 { "div" } else if got.1 != want.1 { "tima" } else { "irq" };
+            ctx.violation(&format!("C13 tac={} action=elapse field={} context={}", tac_label(tac as usize), field, CTX_NAME[dctx]), || {
+              J::obj()
+                .set("case", J::obj().set("via", J::s("bus writes + MemoryAreas::run_clock_cycles")).set("tac", J::u(tac as u64)).set("tima", J::u(tima0 as u64)).set("tma", J::u(tma as u64)).set("context", J::s(CTX_NAME[dctx])).set("schedule", J::s(*sname)).set("batch_index", J::u(bi as u64)).set("clocks_elapsed", J::u(elapsed as u64)))
+                .set("expected", J::obj().set("div", J::u(want.0 as u64)).set("tima", J::u(want.1 as u64)).set("irq", J::Bool(want.2)))
+                .set("observed", J::obj().set("div", J::u(got.0 as u64)).set("tima", J::u(got.1 as u64)).set("irq", J::Bool(got.2)))
+            });
+            break;
+          }
+        }
+        ctx.count(C_TRACES, 1);
+      },
+      |case, how| (format!("C13 action=elapse context-case crash={}", how), J::obj().set("case", J::u(case))),
+    );
+    let c = rep.add_stage("in-the-machine", "TAC 0..7 x TIMA {00,F0} x device context {idle, OAM DMA in flight, display on, both} x 6 partitions of 2048 clocks: registers set through the bus, time delivered by MemoryAreas::run_clock_cycles, DIV / TIMA / IF bit 2 read through the bus after every batch", r);
+    let mut c2 = c;
+    c2[C_STATES] = 0;
+    c2[C_NEW_STATES] = 0;
+    add(&c2);
+  }
+
   rep.evaluations = totals[C_TRANS];
   rep.cov("states", J::u(totals[C_NEW_STATES]));
   rep.cov("states_constructed_incl_repeats", J::u(totals[C_STATES]));
